@@ -42,6 +42,26 @@ func newSbuf(text []byte, spare bool) *sbuf {
 	return s
 }
 
+// newSbufIn places text (plus canary zone) at the start of a reusable arena, growing it when needed.
+func newSbufIn(arena *[]byte, text []byte) *sbuf {
+	need := len(text) + canaryLen
+	if cap(*arena) < need {
+		*arena = make([]byte, need, need*2+64)
+	}
+	s := &sbuf{}
+	s.back = (*arena)[:need]
+	copy(s.back, text)
+	for i := len(text); i < need; i++ {
+		s.back[i] = canaryByte
+	}
+	s.view = s.back[:len(text)]
+	if text == nil {
+		s.view = nil
+	}
+	s.snap = append([]byte(nil), s.back...)
+	return s
+}
+
 func (s *sbuf) intact() bool { return bytes.Equal(s.back, s.snap) }
 
 func (s *sbuf) scribble() {
@@ -291,6 +311,7 @@ type taskState struct {
 	viol     []Violation
 	probes   map[string]int64
 	out      []Outcome
+	arena    [2][]byte // reusable input buffers of this task (Cfg.ReuseBuf)
 }
 
 type runner struct {
@@ -396,9 +417,14 @@ func (rn *runner) execCalls(ts *taskState, calls []Call, want []pristinePair) {
 		// arguments
 		var args callArgs
 		var pa, pb *sbuf
-		arg := func(idx int, priv bool) ([]byte, *sbuf) {
+		arg := func(idx int, priv bool, pos int) ([]byte, *sbuf) {
 			if idx < 0 || idx >= len(rn.bufs) {
 				return nil, nil
+			}
+			if priv && sc.Cfg.ReuseBuf && sc.Bufs[idx] != nil {
+				p := newSbufIn(&ts.arena[pos], sc.Bufs[idx])
+				ts.probes["input_buffer_reused"]++
+				return p.view, p
 			}
 			if priv {
 				p := newSbuf(sc.Bufs[idx], sc.Cfg.SpareCap)
@@ -407,10 +433,10 @@ func (rn *runner) execCalls(ts *taskState, calls []Call, want []pristinePair) {
 			return rn.bufs[idx].view, nil
 		}
 		if c.Fn != FnAccessors {
-			args.a, pa = arg(c.A, c.PrivA)
+			args.a, pa = arg(c.A, c.PrivA, 0)
 		}
 		if usesB(c.Fn) {
-			args.b, pb = arg(c.B, c.PrivB)
+			args.b, pb = arg(c.B, c.PrivB, 1)
 		}
 		if usesSlot(c.Fn) {
 			args.patch = ts.slots[c.Slot]
